@@ -128,11 +128,11 @@ func RunOpPark(lg *rec.Log, sc OpScenario, seed int64, pk *rec.Parker) []rec.Ev 
 					// wait for the producer of this source to leave the emission it is in (bounded: a producer that can never leave is what the watchdog reports)
 					k := 0
 					s0 := atomic.LoadInt64(&emSeq[i])
-					for ; k < 40000 && atomic.LoadInt32(&inflight[i]) != 0 && atomic.LoadInt64(&emSeq[i]) == s0; k++ {
+					for ; k < 100000 && atomic.LoadInt32(&inflight[i]) != 0 && atomic.LoadInt64(&emSeq[i]) == s0; k++ {
 						time.Sleep(50 * time.Microsecond)
 					}
-					if k == 40000 {
-						lg.Add(rec.Ev{E: "hang", S: fmt.Sprintf("the teardown of source %d waited 2s for its producer, which is blocked inside the pipeline", i)})
+					if k == 100000 {
+						lg.Add(rec.Ev{E: "hang", S: fmt.Sprintf("the teardown of source %d waited 5s for its producer, which is blocked inside the pipeline", i)})
 					}
 				}
 				lg.Add(rec.Ev{E: "srcTd", I: i})
@@ -308,7 +308,7 @@ func RunOpPark(lg *rec.Log, sc OpScenario, seed int64, pk *rec.Parker) []rec.Ev 
 		pk.Release()
 	}
 	wg.Wait()
-	for k := 0; k < 60000 && atomic.LoadInt32(&tdRunning) != 0; k++ { // a teardown still running on a goroutine of the library (e.g. a context watcher)
+	for k := 0; k < 140000 && atomic.LoadInt32(&tdRunning) != 0; k++ { // a teardown still running on a goroutine of the library (e.g. a context watcher)
 		time.Sleep(50 * time.Microsecond)
 	}
 	lg.Add(rec.Ev{E: "quiesce"})
